@@ -259,13 +259,17 @@ Record client := {
   cl_server : list (bytes * N);     (* serverSessions: address -> number of recorded sessions *)
   cl_all : N;                       (* allSessions: size of the registry used for selection *)
   cl_tm : bool;                     (* RegisterTM has been written successfully on the open session *)
-  cl_rm : list resource             (* resources announced on the open session *)
+  cl_rm : list resource;            (* resources announced on the open session *)
+  cl_pending : list resource        (* resources whose announcement failed on the open session
+                                       (held all the same: the next session is told) *)
 }.
 Definition cl_connected (c : client) : bool := match cl_cur c with Some _ => true | None => false end.
 
 Inductive cevent :=
-| CRegisterResource (t : N) (r : bytes)
-                                    (* RegisterResource: cached, announced at once if connected *)
+| CRegisterResource (t : N) (r : bytes) (sent_ok : bool)
+                                    (* RegisterResource: cached FIRST, whatever becomes of the send;
+                                       announced at once if connected and the write succeeds
+                                       (sent_ok = false: WritePkg of the RegisterRMRequest fails) *)
 | CConnLost (by_peer : bool)        (* OnClose / OnError -> releaseSession; by_peer: the session is
                                        already closed when it is released *)
 | CReconnect (a : bytes) (write_ok : bool).
@@ -308,11 +312,13 @@ Fixpoint cnt_of (t : list (bytes * N)) (a : bytes) : N :=
 
 Definition cstep (c : client) (e : cevent) : client * list request :=
   match e with
-  | CRegisterResource t r =>
+  | CRegisterResource t r ok =>
+      let now := cl_connected c && ok in
       ({| cl_resources := cl_resources c ++ [(t, r)]; cl_cur := cl_cur c; cl_server := cl_server c;
           cl_all := cl_all c; cl_tm := cl_tm c;
-          cl_rm := if cl_connected c then cl_rm c ++ [(t, r)] else cl_rm c |},
-       if cl_connected c then [RegisterRM [r]] else [])
+          cl_rm := if now then cl_rm c ++ [(t, r)] else cl_rm c;
+          cl_pending := if now then cl_pending c else cl_pending c ++ [(t, r)] |},
+       if now then [RegisterRM [r]] else [])
   | CConnLost by_peer =>
       (* releaseSession: always dropped from allSessions; dropped from the per-address
          map (and closed) only when it is still open: a peer-closed session stays recorded *)
@@ -321,24 +327,24 @@ Definition cstep (c : client) (e : cevent) : client * list request :=
       | Some a =>
           ({| cl_resources := cl_resources c; cl_cur := None;
               cl_server := if by_peer then cl_server c else cnt_upd (cl_server c) a (fun v => v - 1);
-              cl_all := cl_all c - 1; cl_tm := false; cl_rm := [] |}, [])
+              cl_all := cl_all c - 1; cl_tm := false; cl_rm := []; cl_pending := [] |}, [])
       end
   | CReconnect a true =>
       ({| cl_resources := cl_resources c; cl_cur := Some a;
           cl_server := cnt_upd (cl_server c) a (fun v => v + 1); cl_all := cl_all c + 1; cl_tm := true;
-          cl_rm := cl_resources c |},
+          cl_rm := cl_resources c; cl_pending := [] |},
        on_open c)
   | CReconnect a false =>
       (* registerSession, the announcement cannot be written, OnOpen releases the (open)
          session again: nothing stays registered, getty will reconnect *)
       ({| cl_resources := cl_resources c; cl_cur := None;
           cl_server := cnt_upd (cnt_upd (cl_server c) a (fun v => v + 1)) a (fun v => v - 1);
-          cl_all := cl_all c; cl_tm := false; cl_rm := [] |}, [])
+          cl_all := cl_all c; cl_tm := false; cl_rm := []; cl_pending := [] |}, [])
   end.
 
 (* the client before its first connection *)
 Definition cinit : client :=
-  {| cl_resources := []; cl_cur := None; cl_server := []; cl_all := 0; cl_tm := false; cl_rm := [] |}.
+  {| cl_resources := []; cl_cur := None; cl_server := []; cl_all := 0; cl_tm := false; cl_rm := []; cl_pending := [] |}.
 
 (* runs a history; returns the final client and, for every session that stays
    established (CReconnect _ true) in order, the requests written on it together with
